@@ -963,11 +963,12 @@ parsec_list_nolock_chain_sort_mergesort(parsec_list_t *list,
     parsec_list_item_t *items, *p, *q, *e, *tail, *oldhead;
     int insize, nmerges, psize, qsize, i;
 
-    /* Remove the items from the list, and clean the list */
+    /* Chain the items in a ring to sort them. The ghost element keeps pointing
+     * to (stale) items until the sorted ring is linked back: the unlocked
+     * emptiness tests (e.g. in parsec_list_pop_front) must not see a list that
+     * is being sorted as empty. */
     items = parsec_list_item_ring((parsec_list_item_t*)_HEAD(list),
                                  (parsec_list_item_t*)_TAIL(list));
-    _HEAD(list) = _GHOST(list);
-    _TAIL(list) = _GHOST(list);
 #if defined(PARSEC_VERIF) && defined(PARSEC_VERIF_POINT)
     /* verification yield point (locked sort only): the items are detached from the list while they are sorted */
     if( list->atomic_lock ) PARSEC_VERIF_POINT(PARSEC_VERIF_K_READ, &list->ghost_element);
@@ -1044,7 +1045,13 @@ parsec_list_nolock_chain_sort_mergesort(parsec_list_t *list,
         /* Otherwise repeat, merging lists twice the size */
         insize *= 2;
     }
-    parsec_list_nolock_chain_front(list, items);
+    /* Link the sorted ring back between the ghost element's ends */
+    PARSEC_ITEMS_ATTACH(list, items);
+    tail = (parsec_list_item_t*)items->list_prev;
+    items->list_prev = _GHOST(list);
+    tail->list_next = _GHOST(list);
+    _TAIL(list) = tail;
+    _HEAD(list) = items;
 }
 
 static inline void
